@@ -123,3 +123,57 @@ void harness_exact(void)
 	free(b);
 	WITNESS("exact");
 }
+
+/* Symbolic CONTENTS beyond one machine word: up to WIDE bytes of arbitrary data starting at any of the 8 possible
+ * alignments inside a larger buffer, any initial state (the all-zero state included), one call against the fold of
+ * one-byte calls of the same routine (which harness_step identifies with the bitwise definition for every state and
+ * byte).  Reaches word-at-a-time or alignment-dependent shortcuts that the 4/8-byte quantified harnesses and the
+ * zero-data sweeps cannot. */
+#ifndef WIDE
+#define WIDE 24
+#endif
+static uint64_t wide_store[(WIDE + 16) / 8];      /* 8-byte aligned backing store */
+void harness_wide(void)
+{
+	INPUT(u16, c0);
+	INPUT_ARRAY(u8, data, WIDE);
+	INPUT(u32, len);
+	INPUT(u32, off);
+	uint8_t *base = (uint8_t *) wide_store, *p;
+	uint16_t whole, steps;
+	unsigned i;
+	ASSUME(len <= WIDE && off < 8);
+	p = base + off;
+	for (i = 0; i < WIDE; ++i) p[i] = data[i];
+	whole = c0; steps = c0;
+	lha_crc16_buf(&whole, p, len);
+	for (i = 0; i < WIDE; ++i) if (i < len) lha_crc16_buf(&steps, p + i, 1);
+	CHECK(whole == steps, "one call over up to WIDE arbitrary bytes at any alignment equals the fold of one-byte steps");
+	for (i = 0; i < WIDE; ++i) CHECK(p[i] == data[i], "the buffer is not modified");
+	if (len == WIDE && off == 3 && c0 == 0 && data[0] != 0) WITNESS("zero state, odd alignment, non-zero first byte");
+	WITNESS("end");
+}
+
+/* The state variable may live inside the buffer being summed (a record with an embedded checksum field that is fed
+ * whole): the value delivered is the CRC of the bytes as they were when the call was made. */
+#ifndef ALIASN
+#define ALIASN 8
+#endif
+void harness_alias(void)
+{
+	INPUT_ARRAY(u8, data, ALIASN);
+	INPUT(u32, at);
+	static uint16_t rec[ALIASN / 2];
+	uint8_t copy[ALIASN];
+	uint8_t *bytes = (uint8_t *) rec;
+	uint16_t c0, expect;
+	unsigned i;
+	ASSUME(at < ALIASN / 2);
+	for (i = 0; i < ALIASN; ++i) { bytes[i] = data[i]; copy[i] = data[i]; }
+	c0 = rec[at];
+	expect = c0;
+	for (i = 0; i < ALIASN; ++i) lha_crc16_buf(&expect, copy + i, 1);
+	lha_crc16_buf(&rec[at], bytes, ALIASN);
+	CHECK(rec[at] == expect, "state variable inside the buffer: the result is the CRC of the bytes as given");
+	WITNESS("end");
+}
